@@ -161,9 +161,15 @@ impl PageLockShard {
     }
 
     fn try_cleanup(&self, page_id: PageId, entry: &PageLockEntry) {
+        // The count is dropped under the shard lock, the same lock get_or_create
+        // raises it under, so an entry seen at zero here cannot be handed out
+        // again; and only the caller's own entry is ever removed from the map.
+        let mut map = self.locks.lock();
         if entry.release() {
-            let mut map = self.locks.lock();
-            if entry.ref_count.load(Ordering::Acquire) == 0 {
+            let is_mapped = map
+                .get(&page_id)
+                .is_some_and(|e| std::ptr::eq(Arc::as_ptr(e), entry));
+            if is_mapped {
                 map.remove(&page_id);
             }
         }
